@@ -7,13 +7,20 @@ unaligned break-points (1/8 grid), windows longer than the signal, different sta
                    at all input break-points shifted by the bounds, and at the mid-points between them
 compared as right-continuous step functions on the common input domain; output time stamps must be
 non-decreasing and the output must start at the beginning of the domain.
+
+Sub-stream `off-c/reuse`: ONE specification object with named sub-specifications (several assignments) evaluates a batch of
+2-3 independent traces one after the other; some of the earlier traces carry a sample on which a later assignment raises
+(sqrt / ln of a negative value, division by 0), the driver of the batch goes on with the next trace.  Every well-formed
+trace of the batch is compared with rhoD of the inlined formula in the same way (nothing else is compared: the traces
+that raise are not judged, results are copied as soon as evaluate() returns).
 """
 from fractions import Fraction
 from .. import common, formula as F, impl, disc, dense as D
 from ..engine import Violation, Ctx
 
 RULE = ("typed random dense-time formulas (no prev/next/rise/fall; depth<=4; bounds k*0.25, k in 0..8), 1-3 variables, signals of "
-        "1..9 samples on a 1/8 grid with unaligned break-points, common end; a sub-stream with different start times. distinct by "
+        "1..9 samples on a 1/8 grid with unaligned break-points, common end; a sub-stream with different start times; a sub-stream `off-c/reuse` (one specification object with 1-3 named "
+        "sub-specifications evaluating 2-3 traces in a row, earlier traces possibly raising from sqrt/ln/division in a later assignment). distinct by "
         "(spec, signals); non-trivial when the step function on the domain is not constant +-inf.")
 EXPLANATION = ("dense M-spec rhoD (executable, Lean): theorems about it are listed under C05/C16/C18/C19 (C04 proper: rhoD is the "
                "specification; see DESIGN). Correspondence: real dense offline monitor vs rhoD as step functions.")
@@ -122,6 +129,226 @@ def gen_case(rng, allow=None):
             "stream": ("off-c/direct" if direct else "off-c") + ("" if aligned else "/starts") + ("/units" if units_seed is not None else "")}
 
 
+# ---------------------------------------------------------------------------------------------------------------------------
+# off-c/reuse: one specification object, named sub-specifications, several traces in a row (some of which raise)
+# ---------------------------------------------------------------------------------------------------------------------------
+PARTIAL = {  # kind -> (term over the variable, values on which it is defined, values on which evaluate() raises)
+    "sqrt": (lambda v: ("u", "sqrt", ("v", v)), (0.0, 0.25, 1.0, 2.25, 4.0, 9.0), (-0.5, -1.0, -4.0)),
+    "ln": (lambda v: ("u", "ln", ("v", v)), (0.5, 1.0, 2.0, 4.0), (-0.5, -1.0, -2.0)),
+    "div": (lambda v: ("b", "div", ("c", 1.0), ("v", v)), (-2.0, -1.0, -0.5, 0.5, 1.0, 2.0, 4.0), (0.0,)),
+}
+
+
+def is_term(f, env):
+    """The body is an arithmetic expression (not a formula); names are looked up in `env`."""
+    if f[0] == "v":
+        return is_term(env[f[1]], env) if f[1] in env else True
+    return f[0] == "c" or (f[0] == "u" and f[1] != "not") or (f[0] == "b" and f[1] in F.ARITH)
+
+
+def gen_reuse_case(rng):
+    """A modular specification `p0 = ..; [p1 = ..;] out = ..` in which an assignment after the first one contains a partial
+    term (sqrt x, ln x, 1 / x) over a variable, and a batch of traces for one object of it: the variable of the partial term
+    takes only values of the term's domain in the `clean` traces and one value outside of it in the others."""
+    from .. import modular as M
+    g = D.DGen(rng, D.VARS, D.DENSE_OFF, max_bound=rng.choice([2, 4, 8]))
+    f = g.formula(2)
+    for _ in range(20):
+        f = g.formula(rng.choice([2, 2, 3]))
+        if F.size(f) >= 4 and F.variables(f):
+            break
+    defs = M.add_repeats(rng, M.decompose(rng, f, prob=0.5, limit=3))
+    if len(defs) == 1:
+        other = g.formula(rng.choice([0, 1]))
+        ref = rng.choice([("v", "p0"), ("u", "not", ("v", "p0"))])
+        defs = [("p0", f), ("out", ("b", rng.choice(["and", "or", "implies"]), ref, other) if rng.random() < 0.6
+                        else ("b", rng.choice(["and", "or", "implies"]), other, ref))]
+    kind = rng.choice(["sqrt", "sqrt", "ln", "div"])
+    term, good, bad = PARTIAL[kind]
+    pv = rng.choice(D.VARS[:2])
+    guard = ("b", rng.choice(["le", "ge", "lt", "gt"]), term(pv), ("c", rng.choice([0.5, 1.0, 2.0, 3.0])))
+    # never the first assignment (a named sub-specification is evaluated before it), and an assignment that names a formula
+    # (a named arithmetic expression may be the operand of a sqrt / ln whose argument the generator keeps positive)
+    k = rng.choice([i for i in range(1, len(defs)) if not is_term(defs[i][1], dict(defs))])
+    nm, body = defs[k]
+    op = rng.choice(["and", "or", "implies"])
+    defs = defs[:k] + [(nm, ("b", op, body, guard) if rng.random() < 0.6 else ("b", op, guard, body))] + defs[k + 1:]
+    inl = M.inline(defs)
+    vs = sorted(F.variables(inl["out"]))
+    plan = rng.choice([(1, 0), (1, 0), (1, 0), (0, 1, 0), (1, 0, 0), (1, 1, 0), (0, 0), (0, 0, 0)])   # 1 = a trace that raises
+    traces = []
+    for glitch in plan:
+        sig = D.gen_signals(rng, vs, aligned_start=True)
+        if rng.random() < 0.3:
+            sig = {v: [(t, x) for (t, _), x in zip(s_, pattern_values(rng, len(s_)))] for v, s_ in sig.items()}
+        s_ = [(t, rng.choice(good)) for (t, _) in sig[pv]]
+        if glitch:
+            i = rng.randrange(len(s_))
+            s_[i] = (s_[i][0], rng.choice(bad))
+        sig[pv] = s_
+        traces.append(sig)
+    return {"monitor": "offc", "defs": defs, "inl": inl, "f": inl["out"], "vars": vs, "style": rng.choice(["text", "text", "sub_spec"]),
+            "traces": traces, "glitch": list(plan), "stream": "off-c/reuse" + ("/after-exception" if any(plan) else "")}
+
+
+def run_reuse(case):
+    """One specification object, one evaluate() per trace in the order given; an exception of one evaluation is recorded and the
+    batch goes on.  Every result is copied when it is returned.  -> ('ok', [outcome per trace]) | outcome of building the object."""
+    import copy
+    from ..impl import RTAMTException
+
+    def go():
+        spec = D.dense_build(case, modular=True)
+        outs = []
+        for sig in case["traces"]:
+            try:
+                outs.append(("ok", copy.deepcopy(spec.evaluate(*[[v, D.py_sig(sig[v])] for v in case["vars"]]))))
+            except (impl.CaseTimeout, common.HarnessError):
+                raise
+            except RTAMTException as e:
+                outs.append(("rtamt", str(e)))
+            except Exception as e:  # noqa: BLE001
+                outs.append(("other", type(e).__name__, str(e)[:200]))
+        return outs
+    return impl.guarded(go)
+
+
+def reuse_rep(case, j, out):
+    return {"monitor": "offc", "spec": D.mod_rep(dict(case, sig=case["traces"][j]))["spec"], "formula": F.to_proto(case["f"]),
+            "signals": D.sig_rep(case["traces"][j]), "impl": out,
+            "reuse": {"defs": [[nm, F.to_proto(b)] for nm, b in case["defs"]], "style": case["style"],
+                      "traces": [D.sig_rep(s_) for s_ in case["traces"]], "glitch": case["glitch"], "judged": j}}
+
+
+def judge_batch(ctx, items):
+    """items: (formula, signals, text, outcome of evaluate(), replay object, stream).  The comparison of `D.compare_offline_batch`
+    (non-decreasing stamps, start of the domain, rhoD at the query times) for results obtained elsewhere; two driver calls for
+    all items.  -> [Violation | None | 'undef']."""
+    doms = D.model_query([(f, sig, []) for f, sig, _, _, _, _ in items])
+    res_all, pend = {}, []
+    for k, ((f, sig, text, out, rep, stream), (_, dom, end)) in enumerate(zip(items, doms)):
+        if out[0] != "ok":
+            res_all[k] = Violation("dense offline evaluate() raised %r: %s" % (out[1:], text), rep, stream=stream)
+            continue
+        times = [Fraction(p[0]) for p in out[1]]
+        if any(b < a for a, b in zip(times, times[1:])):
+            res_all[k] = Violation("dense offline output time stamps decrease: %r: %s" % ([float(t) for t in times], text), rep, stream=stream)
+            continue
+        pend.append((k, D.query_times(sig, f, [t for t in times if t != float("inf")], dom, end), dom, end))
+    vals_all = D.model_query([(items[k][0], items[k][1], qs) for k, qs, _, _ in pend])
+    for (k, qs, dom, end), (vals, _, _) in zip(pend, vals_all):
+        f, sig, text, out, rep, stream = items[k]
+        res = out[1]
+        rep.update({"domain": [str(dom), str(end)], "model_at": [[str(q), v] for q, v in zip(qs, vals)]})
+        samples = [(Fraction(p[0]), p[1]) for p in res]
+        if not res or Fraction(res[0][0]) != dom:
+            res_all[k] = Violation("dense offline output starts at %r, the common input domain starts at %s: %s"
+                                   % (res[0][0] if res else None, dom, text), rep, stream=stream)
+            continue
+        verdict = None
+        for q, mv in zip(qs, vals):
+            iv = D.step_value(samples, q)
+            if mv is None:
+                raise common.HarnessError("model undefined inside the domain at %s for %s" % (q, text))
+            if mv != mv or (iv is not None and iv != iv):
+                verdict = "undef"
+                break
+            if iv is None or not common.num_eq(iv, mv):
+                verdict = Violation("dense offline value at t=%s is %r, the dense semantics gives %r: %s" % (q, iv, mv, text), rep, stream=stream)
+                break
+        if verdict is None:
+            vs = [D.step_value(samples, q) for q in qs]
+            if any(v not in (common.INF, -common.INF) for v in vs) or len(set(vs)) > 1:
+                ctx.nontrivial.add((text, tuple((v, tuple(sig[v])) for v in sorted(sig))))
+        res_all[k] = verdict
+    return [res_all[k] for k in range(len(items))]
+
+
+def check_reuse(ctx, cases):
+    """-> [(case, index of the judged trace, Violation | None | 'undef')] for every well-formed trace of every batch."""
+    items, where = [], []
+    for c in cases:
+        outs = run_reuse(c)
+        if outs[0] != "ok":           # the object could not be built / parsed
+            items.append((c["f"], c["traces"][0], D.mod_rep(dict(c, sig=c["traces"][0]))["spec"], outs, reuse_rep(c, 0, outs), c["stream"]))
+            where.append((c, 0))
+            continue
+        for j, (sig, glitch, out) in enumerate(zip(c["traces"], c["glitch"], outs[1])):
+            if glitch:                # outside the domain of the partial term: rhoD is undefined there, nothing is claimed
+                ctx.count("reuse:trace-raises" if out[0] != "ok" else "reuse:glitch-trace-evaluates")
+                continue
+            if disc.known_region(ctx, {"f": c["f"], "sig": sig}, REGIONS):
+                ctx.skipped_known += 1
+                continue
+            rep = reuse_rep(c, j, out)
+            rep["reuse"]["outcomes_before"] = [o if o[0] != "ok" else ["ok"] for o in outs[1][:j]]
+            items.append((c["f"], sig, rep["spec"] + "   [trace %d of %d on one specification object%s]"
+                          % (j + 1, len(c["traces"]), ", after an evaluation that raised" if any(o[0] != "ok" for o in outs[1][:j]) else ""),
+                          out, rep, c["stream"]))
+            where.append((c, j))
+    return [(c, j, v) for (c, j), v in zip(where, judge_batch(ctx, items))] if items else []
+
+
+def shrink_reuse(ctx, case, j):
+    """Smaller batch that still fails on its last trace: drop the traces after the judged one, then traces before it, then samples."""
+    def fails(c):
+        try:
+            r = check_reuse(Ctx(ctx.id, ctx.tier, ctx.seed), [c])
+        except common.HarnessError:
+            return None
+        r = [v for (_, jj, v) in r if jj == len(c["traces"]) - 1 and isinstance(v, Violation)]
+        return r[0] if r else None
+    cur = dict(case, traces=case["traces"][:j + 1], glitch=case["glitch"][:j + 1])
+    best = fails(cur)
+    if best is None:
+        return None
+    budget = 24
+    i = 0
+    while i < len(cur["traces"]) - 1 and budget > 0:
+        cand = dict(cur, traces=cur["traces"][:i] + cur["traces"][i + 1:], glitch=cur["glitch"][:i] + cur["glitch"][i + 1:])
+        budget -= 1
+        v = fails(cand)
+        if v is not None:
+            cur, best = cand, v
+        else:
+            i += 1
+    for ti in range(len(cur["traces"])):
+        for var in sorted(cur["traces"][ti]):
+            k = 1
+            while k < len(cur["traces"][ti][var]) - 1 and budget > 0:          # first and last stamp stay (domain)
+                s_ = cur["traces"][ti][var]
+                tr =dict(cur["traces"][ti], **{var: s_[:k] + s_[k + 1:]})
+                cand = dict(cur, traces=cur["traces"][:ti] + [tr] + cur["traces"][ti + 1:])
+                budget -= 1
+                v = fails(cand)
+                if v is not None:
+                    cur, best = cand, v
+                else:
+                    k += 1
+    return best
+
+
+def explore_reuse(ctx, rng, count):
+    cases = [gen_reuse_case(rng) for _ in range(count)]
+    for c in cases:
+        ctx.count("reuse:batches")
+        ctx.count("reuse:subspecs=%d" % (len(c["defs"]) - 1))
+        ctx.count("reuse:style=" + c["style"])
+    for c, j, v in check_reuse(ctx, cases):
+        ctx.evaluations += 1
+        ctx.count("stream:" + c["stream"])
+        for op in set(F.ops(c["f"])):
+            ctx.count("op:" + op)
+        if v == "undef":
+            ctx.skipped_undef += 1
+        elif v is None:
+            ctx.traces_validated += 1
+        else:
+            ctx.violations.append(shrink_reuse(ctx, c, j) or v)
+            if len(ctx.violations) >= 3:
+                return
+
+
 def explore(ctx, rng, count):
     cases, known = [], []
     for _ in range(count):
@@ -149,6 +376,16 @@ def explore(ctx, rng, count):
 
 
 def replay(ctx, obj):
+    if obj.get("reuse"):
+        from .. import modular as M
+        r = obj["reuse"]
+        defs = [(nm, F.from_proto(b)) for nm, b in r["defs"]]
+        inl = M.inline(defs)
+        traces = [D.sig_of_rep(s_) for s_ in r["traces"]]
+        case = {"monitor": "offc", "defs": defs, "inl": inl, "f": inl["out"], "vars": sorted(traces[0]), "style": r["style"],
+                "traces": traces, "glitch": r["glitch"], "stream": "replay"}
+        bad = [v for (_, j, v) in check_reuse(Ctx(ctx.id, ctx.tier, ctx.seed), [case]) if isinstance(v, Violation) and j == r["judged"]]
+        return (not bad), (bad[0].what if bad else "every well-formed trace of the batch on one specification object equals the dense semantics")
     f = F.from_proto(obj["formula"])
     sig = {v: [(Fraction(t), float(x)) for t, x in s] for v, s in obj["signals"].items()}
     if obj.get("units_seed") is not None or obj.get("sugar_text"):
@@ -165,7 +402,11 @@ def extension_stream(ctx):
 
 def run(ctx):
     explore(ctx, ctx.subrng("off-c"), ctx.budget(1200, 12000))
+    if len(ctx.violations) < 3:
+        explore_reuse(ctx, ctx.subrng("off-c/reuse"), ctx.budget(60, 600))
 
 
 def search(ctx):
     explore(ctx, ctx.subrng("search"), ctx.budget(2500, 12000))
+    if len(ctx.violations) < 3:
+        explore_reuse(ctx, ctx.subrng("search/reuse"), ctx.budget(150, 600))
